@@ -550,6 +550,18 @@ class Cluster:
 
         return True
 
+    def _check_versions(self, reason):
+        current = self._get_config_version()
+        if self._config.version != current:
+            raise ConfigVersionMismatch(
+                f"expected={current} actual={self._config.version} {reason}"
+            )
+        current = self._get_job_status_version()
+        if self._job_status.version != current:
+            raise JobStatusVersionMismatch(
+                f"expected={current} actual={self._job_status.version} {reason}"
+            )
+
     def _serialize(self, reason):
         current = self._get_config_version()
         if self._config.version != current:
@@ -620,6 +632,9 @@ class Cluster:
         hpc_job_ids,
         batch_index,
     ):
+        # Check both versions before changing anything. Otherwise a stale copy of the job status
+        # could write the config file and only then fail, leaving the two files inconsistent.
+        self._check_versions("update_job_status")
         self._job_status.hpc_job_ids = hpc_job_ids
         self._job_status.batch_index = batch_index
         status_lookup = {x.name: x for x in self._job_status.jobs}
